@@ -34,6 +34,7 @@ func init() {
 			"quoted strings, q-values with 0-80 (one long value in 25: 120-1000) fractional digits on a 1e-5 grid (same number in several spellings; distinct numbers differ by >= 5e-6; in one header in ten some or all written values are raised by one: 1.5, 1.001, 1.99999, 1.<80 digits> - the RFC's qvalue shape with any digits in the fraction, denoting numbers above 1 that compete with each other, with exactly 1 (written, or a range without q) and with values below 1), optional SP/HTAB, 1-3 field lines; one header in a hundred holds 9, 17, 33, 65 or (rarely) 257 ranges, one in a hundred is spread over 5-40 field lines, in half of both the only acceptable range comes last) x offer lists " +
 			"(permutations, duplicates, offers with parameters, empty; in 6% of the cases one to three offers are spelled with upper-case letters - application/vnd.ms-excel.sheet.macroEnabled.12, X-Snappy - and the header names them verbatim) x default present/absent; G2: arbitrary bytes and byte-level mutations of G1. Every case runs the real ParseAccept and Negotiate* functions; " +
 			"a share goes through the API handler (RoutesHandler over an untyped API built from generated Swagger 2.0; a body-less GET, DELETE or PUT and a POST twin with an admitted JSON body, each operation declaring one success response - 200, or 201, 202, 204 (a third of the operations; a quarter declare 204, the DELETE/PUT that answers without content) - which its handler answers with; the reflective operation handler and the call sequence of a generated server: RouteInfo, BindValidRequest, Respond - run from a Builder middleware on a Context made by NewContext, and, for a third of all requests, as the operation handler of a RoutableAPI (gen.GeneratedAPI) on a Context made by NewRoutableContext, the constructor generated servers use; one API default in ten carries parameters; one description in twelve declares types spelled with upper-case letters). " +
+			"One description in two keeps an operationId of its own for every operation; in the others all operations declare none (Swagger 2.0: optional), all share one, or each draws one of the three. Every handler instance (one Context) serves several requests to several operations of its description in sequence; each response is judged by the declaration of the operation that answers. A violation seen there is reported with the smallest case that shows it on a fresh handler: the operation alone, or the whole description with the (shrunk) list of requests the handler served before (preceding_requests), which a replay serves first. " +
 			"Every request of the handler level goes to a declared path and method: a request the router does not route, or that reaches the Builder's middleware without a MatchedRoute, is a violation. " +
 			"The offers of an operation are computed from its DECLARATION (produces of the operation, else of the spec, plus the API default); the observed MatchedRoute.Produces must be that set and only lends its order. " +
 			"The vocabulary holds types whose TYPE is a proper prefix of another (text / texture / textile), 'type/*' ranges on truncated and extended type names (tex/*, t/*, textx/*) and exact ranges one byte short or long (text/plai, text/plainx). " +
@@ -51,6 +52,7 @@ func init() {
 			"a choice mismatch of Negotiate*/the handler on a header whose ParseAccept result already failed its oracle is attributed to that parse violation and counted, not reported under a second signature",
 			"NegotiateContentEncoding: judged for result in offers/identity/\"\", maximum q, q=0, and earlier offer among offers tied on (q, specificity); the specificity tie-break and the no-header result are not stated for encodings and not judged",
 			"API handler: the offers are the declared produces list (operation level, else spec level) plus the API default; MatchedRoute.Produces must hold exactly that set (its order is a map order fixed at router build and is the only thing read from it); 406 <=> nothing in the declared set is acceptable; Content-Type is judged against the statement's offer order (produces without the default, default last); an operation declaring 201, 202 or 204 as its success response is gated like one declaring 200 (the statement's 406 clause names no exception for responses without content), success is the declared status, and the Content-Type of a 204 response is judged only when the response carries one",
+			"'the media types an operation can produce' are those of the operation the request is routed to (method and path), whether or not it declares an operationId and whether or not another operation declares the same one; what a handler answered before - for this operation or another - has no part in a negotiation; preceding requests of a replayed case are served and not judged (each was judged when the run served it)",
 			"the caller's offers slice and header lines must not be modified by Negotiate*/Parse* (the result is judged against copies taken before the call, so a result that is only a member of a rewritten list is 'not an offer')",
 			"ParseList, ParseValueAndParams, ParseAccept2, ParseTime: totality only",
 		},
@@ -80,6 +82,20 @@ type Case struct {
 	// body) just before this one; a replay serves them first, unjudged. State kept across requests is
 	// part of what is judged: each request is negotiated from its own header alone.
 	Earlier [][]mon.Q `json:"earlier_requests,omitempty"`
+	// Before: every request the same handler instance (one Context) served before this one - to this operation or to
+	// another operation of the description - in order; a replay serves them first, unjudged (before the Earlier ones).
+	// The case then keeps the whole description (api.ops) instead of the one operation. Each response is negotiated over
+	// the declaration of the operation that answers, whatever the handler answered before.
+	Before []Prior `json:"preceding_requests,omitempty"`
+}
+
+// Prior is a request served before the judged one by the same handler.
+type Prior struct {
+	Op     int     `json:"op"`
+	Absent bool    `json:"absent,omitempty"`
+	Lines  []mon.Q `json:"lines"`
+	Flow   string  `json:"flow,omitempty"`
+	Body   bool    `json:"body,omitempty"`
 }
 
 func (c *Case) lines() []string {
@@ -662,6 +678,27 @@ type OpDesc struct {
 	Success int `json:"success,omitempty"`
 	// ErrDefault: the operation also declares a "default" (error) response
 	ErrDefault bool `json:"default_response,omitempty"`
+	// NoID: the operation (and its twin) declares no operationId (Swagger 2.0: optional). ID: the operationId it declares
+	// instead of the generated "op<i>" - nothing makes a description keep them unique, several operations may share one
+	NoID bool   `json:"no_operation_id,omitempty"`
+	ID   string `json:"operation_id,omitempty"`
+}
+
+// idClass names how operation op is identified among the operations of the description: "" = by an operationId of
+// its own.
+func (d *APIDesc) idClass(op int) string {
+	o := d.Ops[op]
+	switch {
+	case o.NoID:
+		return "operation-without-id"
+	case o.ID != "":
+		for i, x := range d.Ops {
+			if i != op && !x.NoID && x.ID == o.ID {
+				return "operation-id-shared-with-another-operation"
+			}
+		}
+	}
+	return ""
 }
 
 // method is the (lower-case) method of the body-less operation op.
@@ -702,6 +739,12 @@ func (d *APIDesc) swagger() []byte {
 			"operationId": fmt.Sprintf("op%d", i),
 			"responses":   responses(),
 		}
+		switch {
+		case op.NoID:
+			delete(o, "operationId")
+		case op.ID != "":
+			o["operationId"] = op.ID
+		}
 		if len(op.Produces) > 0 {
 			o["produces"] = op.Produces
 		}
@@ -714,6 +757,9 @@ func (d *APIDesc) swagger() []byte {
 					"name": "body", "in": "body", "schema": map[string]interface{}{"type": "object"},
 				}},
 				"responses": responses(),
+			}
+			if op.NoID {
+				delete(po, "operationId")
 			}
 			if len(op.Produces) > 0 {
 				po["produces"] = op.Produces
@@ -747,6 +793,17 @@ type built struct {
 	api  *untyped.API
 	obs  *observation
 	cur  *Case
+	// violate, when set, receives the violations of runHandlerOn instead of the monitor (the run loop decides which
+	// replayable case shows them: the operation alone on a fresh handler, or the description with the handler's history)
+	violate func(sig, detail string, c *Case)
+}
+
+func (b *built) report(m *mon.M, sig, detail string, c *Case) {
+	if b.violate != nil {
+		b.violate(sig, detail, c)
+		return
+	}
+	m.Violate(sig, detail, c)
 }
 
 // handle is the application's handler of every operation: it answers with the success status the operation served
@@ -958,8 +1015,22 @@ func runHandlerOn(m *mon.M, c *Case, b *built, h http.Handler) {
 	if accept.HasOWSBeforeSemicolon(declared...) {
 		shape += "/declared-type-with-ows-before-semicolon"
 	}
+	if len(c.Before) > 0 {
+		// the case needs what the handler served before: part of the input class, with the way the operation is identified
+		shape += "/after-responses-of-other-operations"
+		if ic := b.desc.idClass(c.Op); ic != "" {
+			shape += "/" + ic
+		}
+	}
+	if ic := b.desc.idClass(c.Op); ic != "" {
+		m.Class("handler-operation-id:" + ic)
+	}
 	rec := httptest.NewRecorder()
 	minimal := func() *Case {
+		if len(c.Before) > 0 {
+			// the history names operations of the whole description
+			return &Case{Kind: "handler", Absent: c.Absent, Lines: c.Lines, API: b.desc, Op: c.Op, WantOrder: b.obs.produces, Flow: c.Flow, Body: body, Earlier: c.Earlier, Before: c.Before}
+		}
 		d := &APIDesc{DefaultProduces: b.desc.DefaultProduces, Global: b.desc.Global, Ops: []OpDesc{b.desc.Ops[c.Op]}, Post: b.desc.Post && body}
 		return &Case{Kind: "handler", Absent: c.Absent, Lines: c.Lines, API: d, Op: 0, WantOrder: b.obs.produces, Flow: c.Flow, Body: body, Earlier: c.Earlier}
 	}
@@ -974,7 +1045,7 @@ func runHandlerOn(m *mon.M, c *Case, b *built, h http.Handler) {
 				sig = "handler/panic-after-" + md + "/" + accept.Features(lines, p.Ranges)[0]
 			}
 		}
-		m.Violate(sig+shape, fmt.Sprintf("API handler panicked on Accept=%q (produces=%q, default=%q): %v\n%s", lines, b.obs.produces, b.desc.DefaultProduces, pv, st), minimal())
+		b.report(m, sig+shape, fmt.Sprintf("API handler panicked on Accept=%q (produces=%q, default=%q): %v\n%s", lines, b.obs.produces, b.desc.DefaultProduces, pv, st), minimal())
 		return
 	}
 	obs := *b.obs
@@ -989,20 +1060,20 @@ func runHandlerOn(m *mon.M, c *Case, b *built, h http.Handler) {
 		if status == http.StatusNotFound || status == http.StatusMethodNotAllowed {
 			sig = "handler/declared-operation-not-routed"
 		}
-		m.Violate(sig+shape, fmt.Sprintf("%s %s is declared, Accept=%q: status %d, handler ran=%v, and the middleware installed through the Builder found no MatchedRoute in the request it was handed", req.Method, req.URL.Path, lines, status, obs.ran), minimal())
+		b.report(m, sig+shape, fmt.Sprintf("%s %s is declared, Accept=%q: status %d, handler ran=%v, and the middleware installed through the Builder found no MatchedRoute in the request it was handed", req.Method, req.URL.Path, lines, status, obs.ran), minimal())
 		return
 	}
 	m.SetAdd("observed-produces-orders", strings.Join(obs.produces, " | "))
 	if obs.ran != (status == success) || (!obs.ran && status != http.StatusNotAcceptable) {
-		m.Violate("handler/status-and-handler-run-disagree"+shape, fmt.Sprintf("Accept=%q produces=%q: status %d, handler ran=%v", lines, obs.produces, status, obs.ran), minimal())
+		b.report(m, "handler/status-and-handler-run-disagree"+shape, fmt.Sprintf("Accept=%q produces=%q: status %d, handler ran=%v", lines, obs.produces, status, obs.ran), minimal())
 		return
 	}
 	// the operation's offers are what it DECLARES plus the API default; the router's list must be that set
 	if f, det := accept.OfferSetDiff(obs.produces, declared, b.desc.DefaultProduces); f != "" {
-		m.Violate("handler/offers-differ-from-declaration/"+f, "MatchedRoute.Produces: "+det, minimal())
+		b.report(m, "handler/offers-differ-from-declaration/"+f, "MatchedRoute.Produces: "+det, minimal())
 	}
 	if !sameList(req.Header["Accept"], lines) {
-		m.Violate("handler/caller-header-modified", fmt.Sprintf("Accept lines %q sent, %q in the request afterwards", lines, req.Header["Accept"]), minimal())
+		b.report(m, "handler/caller-header-modified", fmt.Sprintf("Accept lines %q sent, %q in the request afterwards", lines, req.Header["Accept"]), minimal())
 	}
 	offers := accept.StatementOffers(obs.produces, declared, b.desc.DefaultProduces)
 	p, mixed, why := judgedParse(lines, offers, true)
@@ -1067,7 +1138,7 @@ func runHandlerOn(m *mon.M, c *Case, b *built, h http.Handler) {
 		m.Class("handler:mismatch-attributed-to-parse-violation")
 		return
 	}
-	m.Violate("handler/"+mode+shape, detail, minimal())
+	b.report(m, "handler/"+mode+shape, detail, minimal())
 }
 
 func runHandlerReplay(m *mon.M, c *Case) {
@@ -1088,12 +1159,23 @@ func runHandlerReplay(m *mon.M, c *Case) {
 			break
 		}
 	}
+	if len(c.Before) > 0 {
+		scratch := mon.New("C07", "quick", 0, 0, 1, "")
+		scratch.SetReplayMode()
+		for _, p := range c.Before {
+			if p.Op < 0 || p.Op >= len(c.API.Ops) || (p.Flow == "generated-routable") != (c.Flow == "generated-routable") {
+				continue // not a request this handler can have served
+			}
+			e := Case{Kind: "handler", Absent: p.Absent, Lines: p.Lines, API: c.API, Op: p.Op, Flow: p.Flow, Body: p.Body}
+			runHandlerOn(scratch, &e, b, h)
+		}
+	}
 	if len(c.Earlier) > 0 {
 		scratch := mon.New("C07", "quick", 0, 0, 1, "")
 		scratch.SetReplayMode()
 		for _, el := range c.Earlier {
 			e := *c
-			e.Earlier, e.Lines, e.Absent = nil, el, false
+			e.Earlier, e.Before, e.Lines, e.Absent = nil, nil, el, false
 			runHandlerOn(scratch, &e, b, h)
 		}
 	}
@@ -1104,7 +1186,9 @@ func runHandlerReplay(m *mon.M, c *Case) {
 
 // genAPI draws a description. ro is a PRNG of its own for the operations' methods and declared success responses
 // (the draws of r are what they were without them).
-func genAPI(r, ro *rand.Rand) *APIDesc {
+// rid is a PRNG of its own for the operationIds: one description in two keeps the generated "op<i>" for every
+// operation; in the others all operations declare none, all share one, or each draws (none / a shared one / its own).
+func genAPI(r, ro, rid *rand.Rand) *APIDesc {
 	d := &APIDesc{}
 	switch k := r.Intn(20); {
 	case k < 11:
@@ -1179,6 +1263,27 @@ func genAPI(r, ro *rand.Rand) *APIDesc {
 		d.Ops = append(d.Ops, op)
 	}
 	d.Post = r.Intn(2) == 0
+	if rid != nil {
+		switch rid.Intn(6) {
+		case 0:
+			for i := range d.Ops {
+				d.Ops[i].NoID = true
+			}
+		case 1:
+			for i := range d.Ops {
+				d.Ops[i].ID = "operation"
+			}
+		case 2:
+			for i := range d.Ops {
+				switch rid.Intn(3) {
+				case 0:
+					d.Ops[i].NoID = true
+				case 1:
+					d.Ops[i].ID = "operation"
+				}
+			}
+		}
+	}
 	return d
 }
 
@@ -1278,10 +1383,12 @@ func run(m *mon.M) {
 	// API handler level
 	r3 := m.Rand("handler")
 	ro := m.Rand("handler-operations")
+	rid := m.Rand("handler-operation-ids")
+	hr := newHandlerReporter(m)
 	napi := m.N(60, 1000)
 	nreq := 30
 	for a := 0; a < napi; a++ {
-		d := genAPI(r3, ro)
+		d := genAPI(r3, ro, rid)
 		m.Begin(map[string]interface{}{"kind": "handler-api", "api": d})
 		b, err := build(d)
 		if err != nil {
@@ -1296,6 +1403,12 @@ func run(m *mon.M) {
 		for k := 0; k < 2; k++ {
 			h, _ := b.handler(true)
 			rhs = append(rhs, h)
+		}
+		// what each handler instance served so far (a handler is one Context: the history of the requests it is sent)
+		served := map[string][]Prior{}
+		serve := func(c *Case, h http.Handler, hk string) {
+			hr.run(c, b, h, served[hk])
+			served[hk] = append(served[hk], Prior{Op: c.Op, Absent: c.Absent, Lines: c.Lines, Flow: c.Flow, Body: c.Body && d.Post})
 		}
 		for q := 0; q < nreq; q++ {
 			op := r3.Intn(len(d.Ops))
@@ -1316,19 +1429,19 @@ func run(m *mon.M) {
 			}
 			lines, absent, fl := genLines(r3, rq, types)
 			c := &Case{Kind: "handler", Absent: absent, Lines: mon.QS(lines), API: d, Op: op}
-			h := hs[q%len(hs)]
+			h, hk := hs[q%len(hs)], fmt.Sprint("plain-", q%len(hs))
 			switch r3.Intn(6) {
 			case 0:
 				c.Flow = "generated"
 			case 1, 2:
 				// the constructor a generated server uses
 				c.Flow = "generated-routable"
-				h = rhs[q%len(rhs)]
+				h, hk = rhs[q%len(rhs)], fmt.Sprint("routable-", q%len(rhs))
 			}
 			c.Body = d.Post && r3.Intn(2) == 0
 			m.Class("handler-flavour:" + fl)
 			m.Begin(c)
-			runHandlerOn(m, c, b, h)
+			serve(c, h, hk)
 			if !absent && len(lines) > 1 {
 				// follow-ups on the same handler that share the first field line with the request just served
 				// but are to be negotiated differently
@@ -1337,7 +1450,7 @@ func run(m *mon.M) {
 					f := &Case{Kind: "handler", Lines: mon.QS(fl), API: d, Op: op, Flow: c.Flow, Body: c.Body, Earlier: [][]mon.Q{mon.QS(lines)}}
 					m.Class("handler-flavour:follow-up-sharing-first-line")
 					m.Begin(f)
-					runHandlerOn(m, f, b, h)
+					serve(f, h, hk)
 				}
 			}
 		}
